@@ -46,6 +46,9 @@ Theorem C06_context_passed_unchanged : forall cx ts t t0 v,
   find (fun kv => ty_eqb (fst kv) t) (map (fun t1 => (t1, ctx_get cx t1)) ts) = Some (t0, v) ->
   In t0 ts /\ ty_eqb t0 t = true /\ v = ctx_get cx t0.
 Proof. exact ctx_passed_on. Qed.
+Theorem C06_context_value_unchanged : forall cx ts t, existsb (ty_eqb t) ts = true ->
+  ctx_get (map (fun t1 => (t1, ctx_get cx t1)) ts) t = ctx_get cx t.
+Proof. exact ctx_value_unchanged. Qed.
 (* a context parameter is never the source: an accepted extend function has exactly one source parameter, and
    it is not one of the parameters classified as context *)
 Theorem C06_extend_has_one_source : forall f d, wf opts_extend f -> classify opts_extend f = inr d ->
@@ -60,4 +63,5 @@ Print Assumptions C06_call_yields_function_result.
 Print Assumptions C06_unavailable_context_fails_lookup.
 Print Assumptions C06_missing_context_on_declared_method_fails.
 Print Assumptions C06_context_passed_unchanged.
+Print Assumptions C06_context_value_unchanged.
 Print Assumptions C06_extend_has_one_source.
